@@ -337,6 +337,22 @@ def unbox(boxed: RBoxed) -> "RNode": return boxed.node
 class RNode:
     v: int = 0
     children: List["RNode"] = field(default_factory=list, metadata=conversion(deserialization=unbox, serialization=box))
+# a recursive class one of whose plain fields carries a field conversion, the type of that field having registered converters too
+class RStamp:
+    def __init__(self, n): self.n = n
+    def __eq__(self, o): return type(o) is RStamp and o.n == self.n
+    def __repr__(self): return f"RStamp({self.n})"
+def rstamp_to_str(s: RStamp) -> str: return f"stamp-{s.n}"
+def rstamp_from_str(t: str) -> RStamp: return RStamp(int(t[6:]))
+def rstamp_to_int(s: RStamp) -> int: return s.n
+def rstamp_from_int(i: int) -> RStamp: return RStamp(i)
+serializer(rstamp_to_str)
+deserializer(rstamp_from_str)
+@dataclass
+class RNode2:
+    plain: RStamp
+    converted: RStamp = field(metadata=conversion(deserialization=rstamp_from_int, serialization=rstamp_to_int))
+    children: List["RNode2"] = field(default_factory=list)
 '''
 
 SPECIAL = '''
@@ -734,6 +750,43 @@ def special_worlds(st: infra.Stats):
                 b = run(des)
                 if b != ("ok", tree):
                     viol("recursive_field_conversion", f"deserialize ({route}) = {b}, expected {tree}", direction="deserialize", route=route)
+        # the same through every container kind, the recursive class coming after a non-recursive sibling (another
+        # element / alternative / field visited first at the same level), each on cold caches and then on warm ones
+        import collections as _c
+        import dataclasses
+        from typing import Mapping as _Mapping
+
+        tree2 = m.RNode2(m.RStamp(1), m.RStamp(2), [m.RNode2(m.RStamp(3), m.RStamp(4))])
+        data2 = {"plain": "stamp-1", "converted": 2, "children": [{"plain": "stamp-3", "converted": 4, "children": []}]}
+        for ncls, ntree, ndata in ((m.RNode, tree, data), (m.RNode2, tree2, data2)):
+            HoldAfter = dataclasses.make_dataclass("HoldAfter", [("a", int), ("n", ncls)])
+            HoldBefore = dataclasses.make_dataclass("HoldBefore", [("n", ncls), ("a", int)])
+            wrappers = [
+                ("T", ncls, lambda x: x, lambda x: x),
+                ("List", List[ncls], lambda x: [x], lambda x: [x]),
+                ("Dict", Dict[str, ncls], lambda x: {"k": x}, lambda x: {"k": x}),
+                ("Mapping", _Mapping[str, ncls], lambda x: {"k": x}, lambda x: {"k": x}),
+                ("Tuple[int,X]", Tuple[int, ncls], lambda x: (0, x), lambda x: [0, x]),
+                ("Tuple[X,int]", Tuple[ncls, int], lambda x: (x, 0), lambda x: [x, 0]),
+                ("Union[int,X]", Union[int, ncls], lambda x: x, lambda x: x),
+                ("Union[X,int]", Union[ncls, int], lambda x: x, lambda x: x),
+                ("Optional", Optional[ncls], lambda x: x, lambda x: x),
+                ("List[Optional]", List[Optional[ncls]], lambda x: [None, x], lambda x: [None, x]),
+                ("Dict[str,List]", Dict[str, List[ncls]], lambda x: {"k": [x]}, lambda x: {"k": [x]}),
+                ("field after int", HoldAfter, lambda x, H=HoldAfter: H(0, x), lambda x: {"a": 0, "n": x}),
+                ("field before int", HoldBefore, lambda x, H=HoldBefore: H(x, 0), lambda x: {"n": x, "a": 0}),
+            ]
+            for cold in (True, False):
+                for wname, wt, wv, wdat in wrappers:
+                    if cold:
+                        apischema.cache.reset()
+                    st.case("recursive_field_conversion", "wrapped", ncls.__name__, wname, cold)
+                    a = run(lambda: serialize(wt, wv(ntree)))
+                    if a != ("ok", wdat(ndata)):
+                        viol("recursive_field_conversion", f"serialize({wname} of {ncls.__name__}) = {a}, expected {wdat(ndata)} ({'cold' if cold else 'warm'} caches)", direction="serialize", route="wrapped")
+                    b = run(lambda: deserialize(wt, wdat(ndata)))
+                    if b != ("ok", wv(ntree)):
+                        viol("recursive_field_conversion", f"deserialize({wname} of {ncls.__name__}) = {b}, expected {wv(ntree)} ({'cold' if cold else 'warm'} caches)", direction="deserialize", route="wrapped")
         unboxed = {"v": 1, "children": [{"v": 2, "children": []}]}
         b = run(lambda: deserialize(m.RNode, unboxed))
         if b[0] != "invalid":
